@@ -164,8 +164,19 @@ on every explored sheet).  The fragment (`CoreSheet.inFragment`, decidable):
 * rows: action rows; `wait_for_response` (with or without timeout), `split_by_value`,
   `split_by_group`, `split_random`; `start_new_flow`, `call_webhook`, `transfer_airtime` (performing
   their own action); `go_to` (its edges enter the named rows, cycles included); `hard_exit` /
-  `loose_exit` (the paths end); no given node identifier or node name, the action as the
-  documentation describes it (`rowOk`);
+  `loose_exit` (the paths end); no given node identifier, the action as the documentation describes
+  it, a node name on action rows only (`rowOk`);
+* rows merged into one node: an action row that carries the node name of an earlier action row is
+  merged into that row's node (the input rows are marked by `CoreSheet.annotate`: `mergeAt`); it has
+  exactly one edge, unconditional, with an explicit `from` (or no row id), from a row of that node
+  (`pass1F` exists: the FUSED reading, in which the merged row has no node and no edge and its row id
+  stands for the first row of its chain); the chain is a chain (`chainsOk`, checked on the two
+  readings' edges): every row but the last is left by exactly that one edge into the next row, the
+  out-edges of the last row are the fused reading's out-edges of the first row, and no edge of the
+  fused reading enters a merged row (F-C02-d).  The reference has one node per row, the compiler one
+  node per chain: the traces agree by node FUSION (`Flow.FuseOf`: a chain of nodes, each with
+  actions, no decision and one exit to the next, corresponds to one node that performs their actions
+  in order — an offset into its actions);
 * `no_op` rows (junctions, performing no action): entered from rows that are not `no_op` rows (not by a
   `go_to`: the compiler rejects that), by any number of conditional or unconditional edges; left
   EITHER by exactly one unconditional edge into a row — then the compiler creates no node at all, the
@@ -191,9 +202,10 @@ for `j`: `CoreSheet.Rel`; with `no_op` rows the compiler applies an edge INTO a 
 edge LEAVES it, so the relation is kept against a schedule of the recorded edges in which such edges
 appear when they take effect: `CoreSheet.Sched`, `RelN`, `rows_simN`; at the end of a sheet of the
 fragment nothing is waiting and the schedule has, per source, the reference's edges in the
-reference's order), then a bisimulation between the index-resolved abstractions of
-the two flows in which a reference node may correspond to TWO compiled nodes (`Flow.SplitOf`,
-`Flow.run_split`; entering a node does not depend on the fuel once it exceeds the number of nodes:
+reference's order; a merged row adds its action to the node of the first row of its chain — the
+`post` argument of `CoreSheet.RowSim`, `merge_row_simN`), then a bisimulation between the index-resolved abstractions of
+the two flows in which a reference node may correspond to TWO compiled nodes and a chain of
+reference nodes to ONE (`Flow.FuseOf`, `Flow.run_fuse`, generalising `Flow.SplitOf` / `Flow.run_split`; entering a node does not depend on the fuel once it exceeds the number of nodes:
 `Flow.aEnter_stable`); identifiers do not matter (`Flow.trace_abs`), in a switch node built case by
 case answer `c` leads where exit `c` leads (`Flow.Positional`, `Flow.CatsPos`).  Category names are
 not observed (C02's level); `rnf`: whether result names are. -/
@@ -216,9 +228,12 @@ theorem C02_fragment (testTypes : List Str) (rows : List CoreSheet.CRow) (out : 
 
 /-- What is NOT proved universally: the same statement for every sheet the parser accepts, i.e.
 with a weaker `wf` than `inFragment` (the documented single-meaning conditions DESIGN §5 C02 WF,
-NoopStable).  Left out of the fragment: rows naming an existing node (`_nodeId` / node name: node
-merging), blocks (`insert_as_block`, `begin_block` / `end_block`: the block clause of C03), rows that
-do not stand for themselves in the documentation's table, and four shapes of `no_op` rows on which the
+NoopStable).  Left out of the fragment: rows with a GIVEN node identifier (`_nodeId`: merging by
+identifier, and the identifier arithmetic of F-C01-a), node names on rows that are not action rows,
+chains of merged rows that are not chains (`chainsOk` is CHECKED on the edges of the two readings, not
+derived from simpler conditions on the rows), blocks (`insert_as_block`, `begin_block` / `end_block`:
+the block clause of C03), rows that do not stand for themselves in the documentation's table, and four
+shapes of `no_op` rows on which the
 two readings agree as far as explored but which the schedule of the proof does not cover (left by
 several unconditional edges only; left unconditionally into an exit row; entered from a `no_op` row;
 entered and never left) — every sheet the harness calls `noop_stable` is inside.  Decided per explored
